@@ -151,6 +151,33 @@ def main(ctx):
         ncall += 1
         if not np.array_equal(h2, hist):
             return rec.fail(case, "rev=False hist=%r differs from %r" % (h2.tolist(), hist.tolist()))
+        # weights sent and reverse indices NOT asked for: the result still carries 'rev' (the weighted sums are made
+        # from it); whatever is returned under that name must be the same partition
+        try:
+            kw = dict(min=mn, max=mx, weights=np.ones(len(data)))
+            kw[bkind] = bval
+            if entry == "histogram":
+                rw = stat.histogram(arr, **kw)
+            else:
+                rw = stat.Binner(arr, weights=np.ones(len(data)))
+                rw.dohist(**{k: v for k, v in kw.items() if k != "weights"})
+            ncall += 1
+            hw = rw["hist"]
+            revw = rw["rev"] if "rev" in (rw.keys() if hasattr(rw, "keys") else rw.dtype.names or ()) else None
+        except Exception as e:
+            return rec.fail(case, "with weights (rev not requested) raised %s: %s" % (type(e).__name__, e))
+        if not np.array_equal(hw, hist):
+            return rec.fail(case, "with weights: hist=%r differs from %r" % (np.asarray(hw).tolist(), hist.tolist()))
+        if revw is not None:
+            revw = np.asarray(revw)
+            for i in range(nb):
+                lo, hi = int(revw[i]), int(revw[i + 1])
+                if not (nb + 1 <= lo <= hi <= revw.size) or revw[lo:hi].tolist() != members[i]:
+                    return rec.fail(case, "with weights (rev not requested): bin %d of the returned rev holds %r, members (value order, stable) %r; rev=%r"
+                                    % (i, revw[lo:hi].tolist() if nb + 1 <= lo <= hi <= revw.size else "bad offsets", members[i], revw.tolist()))
+            if "whist" in (rw.keys() if hasattr(rw, "keys") else ()):
+                if not np.array_equal(np.asarray(rw["whist"]), hist.astype("f8")):
+                    return rec.fail(case, "with unit weights: whist=%r, hist=%r" % (np.asarray(rw["whist"]).tolist(), hist.tolist()))
         ties = len(set(data)) < len(data)
         if ncounted < len(data):
             if ninlim < len(data):
@@ -422,3 +449,58 @@ def main(ctx):
         return [h, rev]
 
     call_sequences(ctx, "call-sequences", seq_pool, SEQ_CALLS, seq_run, lambda: [su], depth=3, nodedup_depth=3, result_edits=True)
+
+    # ------------------------------------------------------------ long inputs, bin populations aligned to block marks
+    # both engines on inputs of about 65536 / 10^5 / 10^6 (thorough: 2^20, 2*10^6) data whose cumulative bin
+    # populations end exactly on, one below and one above the mark, with empty bins before the bin that starts there:
+    # an engine that walks the sorted data in blocks carries state (current bin, start offsets) across the boundary
+    def one_longhist(case, rec):
+        mark, pat, d = case
+        if pat == "split":
+            counts = [mark * 6 // 10, mark - mark * 6 // 10 + d, 0, 3]
+        elif pat == "one-bin":
+            counts = [mark + d, 0, 0, 2]
+        elif pat == "gaps":
+            counts = [1, mark - 1 + d, 0, 5, 0, 1]
+        else:
+            counts = [0, mark // 2, mark - mark // 2 + d, 0, 0, 4, 1]
+        n = sum(counts)
+        vals = np.concatenate([np.full(c, i + 0.25) for i, c in enumerate(counts)])
+        step = 7919
+        while math.gcd(step, n) != 1:
+            step += 2
+        data = vals[(np.arange(n, dtype="i8") * step) % n]
+        keep = data.copy()
+        res = {}
+        for eng in (True, False):
+            su.have_chist = eng
+            try:
+                res[eng] = stat.histogram(data, binsize=1.0, min=0.0, rev=True)
+            except Exception as e:
+                su.have_chist = True
+                return rec.fail(case, "%s engine on %d data raised %s: %s" % ("compiled" if eng else "python", n, type(e).__name__, e))
+            finally:
+                su.have_chist = True
+        if not np.array_equal(data, keep):
+            return rec.fail(case, "the input array was modified")
+        order = np.argsort(data, kind="stable")
+        nb = len(counts)
+        offs = nb + 1 + np.concatenate([[0], np.cumsum(counts)])
+        for eng in (True, False):
+            h, rev = res[eng]
+            nm = "compiled" if eng else "python"
+            if h.tolist() != counts:
+                return rec.fail(case, "%s engine, %d data: hist=%r, populations %r" % (nm, n, h.tolist(), counts))
+            if rev.size != nb + 1 + n or rev[:nb + 1].tolist() != offs.tolist():
+                return rec.fail(case, "%s engine, %d data with populations %r: rev offsets %r (size %d), expected %r (size %d)" % (
+                    nm, n, counts, rev[:nb + 1].tolist(), rev.size, offs.tolist(), nb + 1 + n))
+            if not np.array_equal(rev[nb + 1:], order):
+                bad = int(np.nonzero(rev[nb + 1:] != order)[0][0])
+                return rec.fail(case, "%s engine, %d data with populations %r: rev index list differs from the stable value order from position %d on" % (nm, n, counts, bad))
+        rec.ok(case, outcome="longhist:%s" % pat, nontrivial=True, calls=2)
+
+    import math
+    lmarks = ctx.pick((65536, 100000, 1000000), (4096, 65536, 100000, 1000000, 1048576, 2000000))
+    lhunits = [(m, pat, d) for m in lmarks for pat in ("split", "one-bin", "gaps", "late") for d in (-1, 0, 1)]
+    ctx.lattice("long-inputs-at-block-marks", lhunits, one_longhist,
+                bounds=dict(marks=list(lmarks), patterns=["split", "one-bin", "gaps", "late"], offsets=[-1, 0, 1], engines=["compiled", "python"]))
